@@ -251,7 +251,10 @@ class Endpoint:
                 ctype = (self.headers.get("Content-Type") or "").split(";")[0].strip().lower()
                 raw = self._body() if method == "POST" else b""
                 entry = {"path": path, "method": method, "ctype": ctype, "utf8": True,
-                         "accept": self.headers.get("Accept") or ""}
+                         "accept": self.headers.get("Accept") or "",
+                         # the request as it arrived (transport tie with lean/RV/C20/Conn.lean): URL, body bytes,
+                         # the path before any /sparql routing
+                         "raw_path": self.path, "raw_body": raw if method == "POST" else None, "url_path": path}
                 text = None
                 try:
                     if method == "POST" and ctype == "application/x-www-form-urlencoded":
@@ -276,6 +279,8 @@ class Endpoint:
                         ep.log.append(entry)
                     return self._reply(400, "text/plain", b"request is not UTF-8")
                 # parameters / headers this endpoint does not know are ignored, but logged
+                # every protocol / extra parameter except the request text itself, decoded (URL first, then form)
+                entry["params"] = [(k, v) for k, vs in q.items() if k not in ("query", "update") for v in vs]
                 entry["x_param"] = q.get("x-extra", [])
                 entry["x_header"] = self.headers.get("X-Extra")
                 entry["auth"] = self.headers.get("Authorization")
